@@ -32,10 +32,30 @@ class FileProxy:
         self._ip, self._f, self._path, self.mode = ip, real, path, mode
         self.name = path
         self._raw = raw        # the caller asked for an unbuffered file (buffering=0)
+        self._pending = bytearray()
 
     # -- counted operations --
+    BUFSIZE = 8192
+
     def write(self, b):
+        """A buffered file object (the default of open()) keeps small writes in memory
+        until flush / close / finalisation - an error of the real write then surfaces
+        THERE (and is swallowed when it happens in the finaliser of an object that was
+        never closed).  Raw files (buffering=0) write through."""
         b = bytes(b)
+        if self._raw:
+            return self._write_now(b)
+        self._pending += b
+        if len(self._pending) >= self.BUFSIZE:
+            self._flush_pending()
+        return len(b)
+
+    def _flush_pending(self):
+        if self._pending:
+            data, self._pending = bytes(self._pending), bytearray()
+            self._write_now(data)
+
+    def _write_now(self, b):
         act = self._ip._call("write", self._path, len(b))
         if act == "noop":
             return len(b)
@@ -53,18 +73,21 @@ class FileProxy:
         return self._f.write(b)
 
     def read(self, n=-1):
+        self._flush_pending()
         act = self._ip._call("read", self._path, n)
         if act == "noop":
             return b""
         return self._f.read(n)
 
     def readinto(self, buf):
+        self._flush_pending()
         act = self._ip._call("read", self._path, len(buf))
         if act == "noop":
             return 0
         return self._f.readinto(buf)
 
     def seek(self, *a):
+        self._flush_pending()
         act = self._ip._call("seek", self._path, a[0] if a else 0)
         if act == "noop":
             return 0
@@ -73,18 +96,34 @@ class FileProxy:
     def close(self):
         if self._f.closed:
             return
-        act = self._ip._call("close", self._path, 0)
-        self._f.close()      # unbuffered: nothing is flushed by closing
+        try:
+            self._flush_pending()
+        finally:
+            try:
+                self._ip._call("close", self._path, 0)
+            finally:
+                self._f.close()
         return None
+
+    def __del__(self):
+        # an object that was never closed: the interpreter flushes it in the finaliser and
+        # only PRINTS what goes wrong there ("Exception ignored in ...")
+        try:
+            if not self._f.closed:
+                self.close()
+        except BaseException:
+            pass
 
     # -- pass-through --
     def tell(self):
-        return self._f.tell()
+        return self._f.tell() + len(self._pending)
 
     def flush(self):
+        self._flush_pending()
         return None
 
     def fileno(self):
+        self._flush_pending()
         return self._f.fileno()
 
     def readable(self):
